@@ -79,6 +79,7 @@ def build_templates(tables, ctx):
     if outl is None or len(outl) != len(reqs):
         return None, err
     tpls, skipped = [], {}
+    unmatched = []
 
     def skip(why):
         skipped[why] = skipped.get(why, 0) + 1
@@ -88,6 +89,7 @@ def build_templates(tables, ctx):
         tc = r["tests"][k]
         if o == "NOMATCH":
             skip("example_not_matched_by_its_own_regex")
+            unmatched.append((ri, k))
             continue
         raw = tc["text"].encode("utf-8")
         groups = []
@@ -206,6 +208,7 @@ def build_templates(tables, ctx):
         t["first_row"] = int(p[0])
         keep.append(t)
     skipped["_shadowed_list"] = shadowed
+    skipped["_unmatched_examples"] = unmatched
     return (keep, skipped), ""
 
 
@@ -428,6 +431,26 @@ def run(ctx):
             if out != want:
                 ctx.failure(dict(line=line, tz_offset=zs, corpus="corpus/C04/cases.tsv:%d" % (k + 1), file_lines=[line] * 6), pref,
                             (out.decode("utf-8", "replace").split("\n")[0][:120] or "rc=%d %s" % (rc, err.decode("utf-8", "replace")[-200:])), [])
+    # ---- documented examples that their OWN row's regex does not match (none on the unchanged tree): the
+    #      documented notation is in the property's domain, so the example line itself is run through the binary
+    unm = skipped.pop("_unmatched_examples", [])
+    rng.shuffle(unm)
+    for k, (ri, ek) in enumerate(unm[:(40 if quick else 400)]):
+        tc = tables["rows"][ri]["tests"][ek]
+        y, mo, dd_, h, mi, sec, ns = tc["fields"]
+        line = tc["text"].split("\n")[0]
+        if y is None or tc["end"] > len(line.encode("utf-8")):
+            continue
+        doc = (calendar.timegm((y, mo, dd_, h, mi, sec)) - (tc["off"] or 0)) * 10 ** 9 + ns
+        p = os.path.join(d, "unmatched_%03d.log" % k)
+        open(p, "wb").write(((line + "\n") * 6).encode("utf-8"))
+        rc, out, err = vlib.run_s4(["--color", "never", "-u", "-d", "%Y%m%dT%H%M%S%.9f%z", "--tz-offset=+00:00", p], timeout=120, env={"TZ": "UTC"})
+        want = ((fmt_utc(doc) + ":" + line + "\n") * 6).encode("utf-8")
+        if out != want:
+            ctx.failure(dict(line=line, tz_offset="+00:00", table_row=ri, source_line=tables["rows"][ri]["line"],
+                             documented_example=tc["text"], file_lines=[line] * 6,
+                             note="documented example no longer matched by the regex of its own row"),
+                        fmt_utc(doc), (out.decode("utf-8", "replace").split("\n")[0][:120] or "<no output line> rc=%d" % rc), [])
     # ---- generate files: one notation (template) per file
     files = []
     day_i = 0
